@@ -296,6 +296,10 @@ func genIter(t *rapid.T) iterCase {
 	}
 	if rapid.Bool().Draw(t, "match") {
 		c.Match = rapid.StringMatching(`[a-z*?]{1,6}`).Draw(t, "pat")
+		if rapid.IntRange(0, 3).Draw(t, "oddpat") == 0 {
+			// patterns that look like something else: an option name, a number, a cursor, bytes with meaning in RESP
+			c.Match = rapid.SampledFrom([]string{"count", "COUNT", "Count", "match", "MATCH", "0", "10", "-1", "18446744073709551615", "type", "TYPE", "*", "", " ", "a b", "k\r\n", "[a-c]*", "\\*"}).Draw(t, "oddpatv")
+		}
 	}
 	if rapid.Bool().Draw(t, "count") {
 		c.Count = rapid.IntRange(1, 10000).Draw(t, "cnt")
